@@ -3,7 +3,7 @@
      Model/Xmlsec.v  (C10 requests, C16 metadata): tree = El | Sg refs key sv,  tool_verify dupfail, precheck
      Model/Xsw.v     (C01): Sg carries its own ID / payload / element children, three duplicate-ID policies,
                             precheck = sigver._enveloped_signature_ok
-     Model/Request.v enveloped_ok = Xmlsec.precheck && (exactly one node of the document carries the ID)
+     Model/Request.v enveloped_ok = Xmlsec.precheck (which counts the carriers of the ID among ALL elements, as the library)
      Model/MdSig.v   md_precheck  = _enveloped_signature_ok(..., whole_document_ok=True)
 
    [emb] embeds an Xmlsec document into the Xsw document type (element names shifted by one: Xsw reserves
@@ -300,10 +300,10 @@ Proof.
   replace (Pv v (fst x, g x)) with (Pv v x) by reflexivity. destruct (Pv v x); cbn [map]; now rewrite IH.
 Qed.
 
-Lemma all_ids_emb : forall t here, MD.all_ids t here = map (shift here) (X.ids_where (fun _ => true) (emb t)).
+Lemma all_ids_emb : forall t here, M.all_ids t here = map (shift here) (X.ids_where (fun _ => true) (emb t)).
 Proof.
   induction t as [n i pl kids IH|refs key sv _] using mtree_ind2; intros here; [|reflexivity].
-  rewrite XL.ids_where_unfold, map_app, emb_kids_El. cbn [MD.all_ids]. f_equal.
+  rewrite XL.ids_where_unfold, map_app, emb_kids_El. cbn [M.all_ids]. f_equal.
   - unfold X.own_id. cbn [emb X.t_id]. destruct i as [v|]; [|reflexivity]. unfold shift. cbn [map fst snd]. now rewrite app_nil_r.
   - generalize O. induction IH as [|c r Hc _ IHr]; intros k; [reflexivity|].
     cbn [map X.ids_in]. rewrite map_app, shift_cons, <- Hc. f_equal. apply IHr.
@@ -312,21 +312,8 @@ Qed.
 Lemma carriers_length v doc : List.length (X.carriers v doc) = List.length (filter (Pv v) (X.ids_where (fun _ => true) doc)).
 Proof. unfold X.carriers. now rewrite map_length. Qed.
 
-Lemma all_ids_count v t : List.length (M.with_id v (MD.all_ids t [])) = List.length (X.carriers v (emb t)).
+Lemma all_ids_count v t : List.length (M.with_id v (M.all_ids t [])) = List.length (X.carriers v (emb t)).
 Proof. now rewrite all_ids_emb, shift_nil, carriers_length. Qed.
-
-Lemma count_id_emb v : forall t, RQ.count_id v t = List.length (X.carriers v (emb t)).
-Proof.
-  intros t. rewrite carriers_length. induction t as [n i pl kids IH|refs key sv _] using mtree_ind2; [|reflexivity].
-  rewrite XL.ids_where_unfold, filter_app, app_length, emb_kids_El. cbn [RQ.count_id]. f_equal.
-  - unfold X.own_id. cbn [emb X.t_id]. destruct i as [x|]; [|reflexivity]. cbn [filter]. unfold Pv. cbn [fst].
-    destruct (str_eqb x v); reflexivity.
-  - match goal with |- ?lhs = List.length (filter ?P (X.ids_in ?g ?l O)) =>
-      enough (forall k, lhs = List.length (filter P (X.ids_in g l k))) as Hk by apply Hk end.
-    induction IH as [|c r Hc _ IHr]; intros k; [reflexivity|].
-    cbn [map X.ids_in]. rewrite filter_app, app_length, (filter_Pv_map v (fun vp => k :: snd vp)), map_length, <- Hc.
-    f_equal. apply IHr.
-Qed.
 
 Lemma ids_in_cons g c r k :
   X.ids_in g (c :: r) k = map (fun vp : str * X.path => (fst vp, k :: snd vp)) (g c) ++ X.ids_in g r (S k).
@@ -413,8 +400,11 @@ Definition named (doc : M.tree) (nm : N) (px : M.path) : bool :=
 
 Lemma M_precheck_unfold doc nm c0 v0 :
   M.precheck doc nm (Some (c0 :: v0)) =
-  match M.with_id (c0 :: v0) (M.registered nm doc []) with [(_, px)] => tailM doc (c0 :: v0) px | _ => false end.
-Proof. reflexivity. Qed.
+  match M.with_id (c0 :: v0) (M.all_ids doc []) with [(_, px)] => named doc nm px && tailM doc (c0 :: v0) px | _ => false end.
+Proof.
+  unfold M.precheck, named, tailM. destruct (M.with_id (c0 :: v0) (M.all_ids doc [])) as [|[w px] [|y l]]; try reflexivity.
+  destruct (M.subtree_at px doc) as [[n xi pl kids|refs key sv]|]; reflexivity.
+Qed.
 Lemma X_precheck_unfold doc nm c0 v0 :
   X.precheck doc nm (Some (c0 :: v0)) =
   match X.carriers (c0 :: v0) doc with [px] => tailX doc nm (c0 :: v0) px | _ => false end.
@@ -432,46 +422,45 @@ Proof.
   destruct (nth_error kids k) as [[n2 i2 pl2 k2|[|[u d] [|ud2 r]] key sv]|]; reflexivity.
 Qed.
 
-(* Request.enveloped_ok IS sigver._enveloped_signature_ok as C01 models it *)
-Theorem enveloped_ok_is_xsw_precheck doc nm i :
-  X.precheck (emb doc) (nm' nm) i = RQ.enveloped_ok doc nm i.
+Lemma with_id_all_ids v doc : M.with_id v (M.all_ids doc []) = filter (Pv v) (X.ids_where (fun _ => true) (emb doc)).
+Proof. now rewrite all_ids_emb, shift_nil. Qed.
+
+(* Xmlsec.precheck (= Request.enveloped_ok) IS sigver._enveloped_signature_ok as C01 models it: an equality *)
+Theorem xmlsec_precheck_is_xsw_precheck doc nm i :
+  X.precheck (emb doc) (nm' nm) i = M.precheck doc nm i.
 Proof.
-  unfold RQ.enveloped_ok. destruct i as [v|]; [|reflexivity]. destruct v as [|c0 v0]; [reflexivity|].
-  rewrite M_precheck_unfold, X_precheck_unfold, count_id_emb. set (v := c0 :: v0).
-  pose proof (ids_where_le (fun t => N.eqb (X.t_name t) (nm' nm)) v (emb doc)) as Hle.
-  rewrite <- carriers_length in Hle. fold (X.registered (nm' nm) (emb doc)) in Hle. rewrite <- with_id_registered in Hle.
-  pose proof (with_id_member v nm doc) as Hmem. pose proof (carrier_registered v nm doc) as Hreg.
-  destruct (X.carriers v (emb doc)) as [|px [|p2 r]] eqn:Ec.
-  - (* nobody carries the ID *)
-    destruct (M.with_id v (M.registered nm doc [])) as [|x l]; [reflexivity|]. cbn in Hle. lia.
-  - (* exactly one carrier *)
-    cbn [List.length Nat.eqb]. rewrite andb_true_r, tail_emb.
-    destruct (M.with_id v (M.registered nm doc [])) as [|[w p] [|y l]] eqn:Ew.
-    + (* ... which is not registered: it is not an element of that name *)
-      destruct (named doc nm px) eqn:En; [|reflexivity]. exfalso. unfold named in En.
-      destruct (M.subtree_at px doc) as [[n xi pl kids|]|] eqn:Es; try discriminate. apply N.eqb_eq in En. subst n.
-      exact (Hreg px xi pl kids (or_introl eq_refl) Es).
-    + destruct (Hmem w p (or_introl eq_refl)) as (-> & [<-|[]] & n & xi & pl & kids & Hs & ->).
-      unfold named. rewrite Hs, N.eqb_refl. reflexivity.
-    + cbn in Hle. lia.
-  - (* several carriers: refused by both *)
-    cbn [List.length Nat.eqb]. now rewrite andb_false_r.
+  destruct i as [v|]; [|reflexivity]. destruct v as [|c0 v0]; [reflexivity|].
+  rewrite M_precheck_unfold, X_precheck_unfold, with_id_all_ids. set (v := c0 :: v0). unfold X.carriers.
+  change (fun r : str * X.path => str_eqb (fst r) v) with (Pv v).
+  destruct (filter (Pv v) (X.ids_where (fun _ => true) (emb doc))) as [|[w px] [|y l]]; try reflexivity.
+  cbn [map snd]. apply tail_emb.
 Qed.
 
-(* Xmlsec.precheck ALONE does not look at carriers of another name: weaker *)
-Theorem xsw_precheck_implies_xmlsec_precheck doc nm i :
-  X.precheck (emb doc) (nm' nm) i = true -> M.precheck doc nm i = true.
-Proof. rewrite enveloped_ok_is_xsw_precheck. unfold RQ.enveloped_ok. intros H. now apply andb_true_iff in H as [H _]. Qed.
+Theorem enveloped_ok_is_xsw_precheck doc nm i :
+  X.precheck (emb doc) (nm' nm) i = RQ.enveloped_ok doc nm i.
+Proof. exact (xmlsec_precheck_is_xsw_precheck doc nm i). Qed.
 
-(* the ID a-1 on the AuthnRequest (name 1) AND on an element of another name (name 7) *)
+(* HISTORY: Xmlsec.precheck as it was before it followed the library - carriers of the ID counted among the elements
+   of the asked NAME only (the IDs the tool registers) *)
+Definition precheck_registered_only (doc : M.tree) (nm : N) (i : option str) : bool :=
+  match i with
+  | None => false
+  | Some v =>
+      match v with [] => false | _ =>
+      match M.with_id v (M.registered nm doc []) with [(_, px)] => tailM doc v px | _ => false end end
+  end.
+
+(* the ID a-1 on the AuthnRequest (name 1) AND on an element of another name (name 7): the library refuses the document
+   (harness/glue_probe.py), and so do all three models now; the old definition accepted it although the tool verifies *)
 Definition foreign_carrier_doc : M.tree :=
   M.El 1 (Some (s2l "a-1")) 10
     [M.Sg [(M.HASH :: s2l "a-1", M.El 1 (Some (s2l "a-1")) 10 [M.El 7 (Some (s2l "a-1")) 11 []])] 5 true;
      M.El 7 (Some (s2l "a-1")) 11 []].
-Theorem xmlsec_precheck_weaker_witness :
-  M.precheck foreign_carrier_doc 1 (Some (s2l "a-1")) = true /\
+Theorem xmlsec_precheck_foreign_carrier_witness :
+  precheck_registered_only foreign_carrier_doc 1 (Some (s2l "a-1")) = true /\
   M.tool_verify true foreign_carrier_doc 1 (Some (s2l "a-1")) 5 = true /\
-  M.check_signature_x true foreign_carrier_doc 1 (Some (s2l "a-1")) [5] = true /\
+  M.precheck foreign_carrier_doc 1 (Some (s2l "a-1")) = false /\
+  M.check_signature_x true foreign_carrier_doc 1 (Some (s2l "a-1")) [5] = false /\
   X.precheck (emb foreign_carrier_doc) (nm' 1) (Some (s2l "a-1")) = false /\
   RQ.enveloped_ok foreign_carrier_doc 1 (Some (s2l "a-1")) = false.
 Proof. vm_compute. repeat split; reflexivity. Qed.
@@ -482,7 +471,7 @@ Proof. vm_compute. repeat split; reflexivity. Qed.
 Lemma enveloped_ok_root_element doc nm i : RQ.enveloped_ok doc nm i = true -> M.is_sig doc = false.
 Proof.
   destruct doc as [n xi pl kids|refs key sv]; [reflexivity|]. unfold RQ.enveloped_ok. intros H.
-  apply andb_true_iff in H as [H _]. destruct i as [[|c0 v0]|]; discriminate.
+  destruct i as [[|c0 v0]|]; discriminate.
 Qed.
 
 Lemma existsb_ext' {A} (f g : A -> bool) l : (forall x, f x = g x) -> existsb f l = existsb g l.
@@ -496,6 +485,15 @@ Proof.
   unfold X.check_signature_x. rewrite enveloped_ok_is_xsw_precheck.
   destruct (RQ.enveloped_ok doc nm i) eqn:E; [|reflexivity]. cbn [andb].
   apply existsb_ext'. intros c. apply tool_verify_emb. exact (enveloped_ok_root_element _ _ _ E).
+Qed.
+
+(* ... and Xmlsec.check_signature_x is C01's check_signature_x *)
+Theorem check_signature_x_is_xmlsec dupfail doc nm i certs :
+  X.check_signature_x (pol_of dupfail) (emb doc) (nm' nm) i certs = M.check_signature_x dupfail doc nm i certs.
+Proof.
+  rewrite check_signature_x_emb. unfold M.check_signature_x, RQ.enveloped_ok.
+  destruct (M.precheck doc nm i) eqn:E; [|reflexivity]. cbn [andb].
+  destruct i as [[|c0 v0]|]; try discriminate. reflexivity.
 Qed.
 
 (* a request whose signature check passes (pre-check in force, F16 repaired) is accepted by C01's check_signature_x
@@ -583,7 +581,7 @@ Lemma X_precheck_root n i pl kids :
   X.precheck (emb (M.El n i pl kids)) (nm' n) i =
   match i with
   | Some (c0 :: v0) =>
-      Nat.eqb (List.length (M.with_id (c0 :: v0) (MD.all_ids (M.El n i pl kids) []))) 1 && tailM (M.El n i pl kids) (c0 :: v0) []
+      Nat.eqb (List.length (M.with_id (c0 :: v0) (M.all_ids (M.El n i pl kids) []))) 1 && tailM (M.El n i pl kids) (c0 :: v0) []
   | _ => false
   end.
 Proof.
